@@ -21,7 +21,7 @@ def run(ck):
                                                                 'CC(=O)Oc1ccccc1C(=O)O', 'N[C@@H](C)C(=O)O', 'F/C=C/F', 'C1CCC2CCCCC2C1', 'CCCCCCCC', 'C(C)(C)(C)C', 'c1ccc(cc1)-c1ccccc1', 'C[CH2]', '[CH2]CC', 'C[O]', 'OCCCCCCO', '[CH3].[CH3]', 'CC(=O)[O-].[Na+]', 'OCCO.OCCO', 'CCO.CCN', 'CCO.CCN.CCS', 'CC.CC.CC', 'NCCO.NCCO.O',
                                                                 # equivalent stereo elements (ring pairs, meso and like pairs, E/Z pairs): the canonical order comes from a second ranking pass
                                                                 'C[C@H]1CC[C@@H](C)CC1', 'C[C@H]1CC[C@H](C)CC1', 'O[C@H]1C[C@@H](O)C1', 'F[C@H]1C[C@@H](F)C[C@H](F)C1', 'C[C@H](O)C[C@H](O)C', 'C[C@H](O)C[C@@H](O)C',
-                                                                'C/C=C/CC/C=C\\C', 'C/C=C/CC/C=C/C', 'C[C@H](O)[C@@H](O)C', 'C[C@H](Br)[C@H](Br)C', 'O[C@H]1CC[C@@H](O)CC1.O[C@H]1CC[C@H](O)CC1']
+                                                                'C/C=C/CC/C=C\\C', 'C/C=C/CC/C=C/C', 'C[C@H](O)[C@@H](O)C', 'C[n+]1ccn(CC)c1', 'c1c[nH]c[nH+]1', 'CC[n+]1cccn1C', 'Cn1cc[n+](C)c1', 'C[n+]1ccccc1', 'N[C@@H](Cc1c[nH]c[nH+]1)C(=O)O', 'C[C@H](Br)[C@H](Br)C', 'O[C@H]1CC[C@@H](O)CC1.O[C@H]1CC[C@H](O)CC1']
     seeds = [0, 1, ck.seed + 2, 12345] if ck.quick else [0, 1, 2, 3, 7, 11, 101, 12345, 999999, ck.seed + 2, 4242, 31337, 65535, 17, 5, 8]
     if ck.replay:
         sel = [ck.replay_case['case']['input']]
